@@ -10,6 +10,7 @@
  * Blobs: def <name> hex <hex> | def <name> cat <n1> <n2> ..   (zdef lines are for the model only)
  * Ops:  cb8 0|1 | viewonly id 0|1 | send id blob | close id | pub blob | pub8 blob fb|null
  *       csend id blob | csend8 id blob | fsend id blob [eof] | cuts id s|c a,b,c
+ *       kill id (peer closes, server not pumped) | senddie id blob (send, then close at once)
  * One observation line per op:  <events> | <closed ids> | <per-connection clipboard state>
  * Server output is canonicalised (provide payloads are inflated here; compressed bytes depend on
  * the zlib version and are never compared).
@@ -252,9 +253,9 @@ static void pump(void) {
   }
 }
 
-static void finish_op(void) {
+static void finish_op_(int do_pump) {
   int i, first;
-  pump();
+  if (do_pump) pump();
   for (i = 0; i < MAXC; i++) {
     if (C[i].kind == K_RAW || C[i].kind == K_RAWPRE) canon_msgs("tx", i, &C[i].sc.out, 3);
     if (C[i].kind == K_FSRV) canon_msgs("ctx", i, &C[i].fout, 6);
@@ -286,6 +287,8 @@ static void finish_op(void) {
   vh_buf_reset(&ev);
 }
 
+static void finish_op(void) { finish_op_(1); }
+
 /* ------------------------------------------------------------------ connection setup */
 static int new_sockpair(int sv[2]) {
   int i, sz = 8 << 20;
@@ -298,10 +301,10 @@ static int new_sockpair(int sv[2]) {
 }
 static void nonblock(int fd) { fcntl(fd, F_SETFL, fcntl(fd, F_GETFL) | O_NONBLOCK); }
 
-static rfbClient *mk_libclient(int utf8) {
+static rfbClient *mk_libclient(int arg) {   /* bit 0: GotXCutTextUTF8 installed, bit 1: GotXCutText NOT installed */
   rfbClient *c = rfbGetClient(8, 3, 4);
-  c->GotXCutText = ccb_l1;
-  if (utf8) c->GotXCutTextUTF8 = ccb_u8;
+  if (!(arg & 2)) c->GotXCutText = ccb_l1;
+  if (arg & 1) c->GotXCutTextUTF8 = ccb_u8;
   c->canHandleNewFBSize = FALSE;
   c->readTimeout = 2;
   return c;
@@ -472,7 +475,7 @@ int main(void) {
     if (!strcmp(tok[0], "send") && n == 3) {
       blob_t *b = blob(tok[2]);
       id = atoi(tok[1]);
-      if (id < 0 || id >= MAXC || C[id].kind != K_RAW || !b || !srv_open(id)) { puts("bad-op"); fflush(stdout); continue; }
+      if (id < 0 || id >= MAXC || C[id].kind != K_RAW || !b || !srv_open(id) || C[id].sc.peer < 0) { puts("bad-op"); fflush(stdout); continue; }
       vh_send(&C[id].sc, b->p, b->n);
       finish_op(); continue;
     }
@@ -481,6 +484,23 @@ int main(void) {
       if (id < 0 || id >= MAXC || (C[id].kind != K_RAW && C[id].kind != K_RAWPRE) || C[id].sc.peer < 0) { puts("bad-op"); fflush(stdout); continue; }
       close(C[id].sc.peer); C[id].sc.peer = -1;
       if (C[id].kind == K_RAWPRE && C[id].sc.cl) rfbProcessClientMessage(C[id].sc.cl);
+      finish_op(); continue;
+    }
+    if (!strcmp(tok[0], "kill") && n == 2) {
+      /* the peer closes its end and the server does NOT get a chance to notice before the next op:
+         the next write to this client fails (EPIPE) */
+      id = atoi(tok[1]);
+      if (id < 0 || id >= MAXC || (C[id].kind != K_RAW && C[id].kind != K_RAWPRE) || C[id].sc.peer < 0) { puts("bad-op"); fflush(stdout); continue; }
+      close(C[id].sc.peer); C[id].sc.peer = -1;
+      finish_op_(0); continue;
+    }
+    if (!strcmp(tok[0], "senddie") && n == 3) {
+      /* the peer sends and closes at once: replies of the handler cannot be written */
+      blob_t *b = blob(tok[2]);
+      id = atoi(tok[1]);
+      if (id < 0 || id >= MAXC || C[id].kind != K_RAW || !b || !srv_open(id) || C[id].sc.peer < 0) { puts("bad-op"); fflush(stdout); continue; }
+      vh_send(&C[id].sc, b->p, b->n);
+      close(C[id].sc.peer); C[id].sc.peer = -1;
       finish_op(); continue;
     }
     if (!strcmp(tok[0], "pub") && n == 2) {
